@@ -283,6 +283,7 @@ def main(argv=None):
     ap.add_argument('--replay')
     ap.add_argument('--root', default=None)
     ap.add_argument('--list', action='store_true', help='print every obligation')
+    ap.add_argument('--twin', default=None, help='(debug) analyse a behaviour-preserving twin of the tree')
     args = ap.parse_args(argv)
     pid = args.pid
     t0 = time.time()
@@ -291,6 +292,9 @@ def main(argv=None):
     extra = None
     try:
         program = Program.load(args.root)
+        if args.twin:
+            from .selftest import TWINS
+            program = Program(TWINS[args.twin](program.sources))
         ctx, errors = run_rules(program, pid, args.tier)
         hits = apply_known(ctx)
         if args.tier == 'thorough':
@@ -309,7 +313,8 @@ def main(argv=None):
         ctx = Ctx(None, pid, args.tier)
         ctx.program = type('P', (), {'units': {}})()
     try:
-        write_evidence(ctx, errors, wall, args.tier, extra)
+        if not os.environ.get('SA_NO_EVIDENCE'):
+            write_evidence(ctx, errors, wall, args.tier, extra)
     except Exception as e:
         errors.append('could not write evidence: %s' % e)
     if args.list:
@@ -330,7 +335,7 @@ def main(argv=None):
     for k, o in hits:
         print('KNOWN-FINDING: property=%s %s [%s at %s]' % (pid, k['desc'] or o.detail, o.rule, o.where))
     for o in viol:
-        path = write_replay(ctx, o)
+        path = write_replay(ctx, o) if not os.environ.get('SA_NO_EVIDENCE') else '(not written)'
         print('%s: %s: %s%s' % (o.where, o.rule, o.construct, (' -- ' + o.detail) if o.detail else ''))
         for w in o.witness[:16]:
             print('    ' + w)
